@@ -107,6 +107,17 @@ fn main() {
         std::fs::write(&p, &bytes).unwrap();
         valid.push((p, bytes));
     }
+    // a dump whose CrashpadInfo stream is present but unreadable (version 0): the raw-dump printer says so, everything else goes on
+    {
+        let mut b = vharness::rich::template("linux-amd64", false);
+        let (_, _, streams) = vharness::rich::layout(&b);
+        if let Some(s) = streams.iter().find(|s| s.stream_type == 0x4350_0001) {
+            for x in &mut b[s.rva..s.rva + 4] { *x = 0; }
+            let p = work.join("rich-badcrashpad.dmp");
+            std::fs::write(&p, &b).unwrap();
+            valid.push((p, b));
+        }
+    }
     // a thread whose stack size is not a multiple of the pointer width, and a big-endian dump
     for (n, spec) in [("oddstack.dmp", DumpSpec { threads: vec![vharness::dumpgen::ThreadSpec { id: 7, ctx_ok: true, name: Some("odd".into()), ip: 0x400100, sp: 0x10000, stack_base: 0x10000, stack: vec![0xabu8; 0x1002] }],
                                                     modules: vec![vharness::dumpgen::ModuleSpec { base: 0x400000, size: 0x1000, name: "m1".into() }], ..DumpSpec::default() }),
@@ -175,7 +186,7 @@ fn main() {
                 let sink = c["sink"].as_str().unwrap_or("ok");
                 let logf = c["logf"].as_str().unwrap_or("none");
                 let cy = if sink == "cyborg_bad" { dir.join("no-such-dir/cyborg.json") } else { dir.join("cyborg.json") };
-                let of = if sink == "outfile_bad" { dir.join("no-such-dir/out.txt") } else { dir.join("out.txt") };
+                let of = if sink == "outfile_bad" { dir.join("no-such-dir/out.txt") } else if sink == "outfile_full" { PathBuf::from("/dev/full") } else { dir.join("out.txt") };
                 let lf = if logf == "bad" { dir.join("no-such-dir/log.txt") } else { dir.join("log.txt") };
                 if logf != "none" { cmd.arg("--log-file").arg(&lf); }
                 for m in &modes { match *m { "cyborg" => { cmd.arg("--cyborg").arg(&cy); } other => { cmd.arg(format!("--{}", other)); } } }
@@ -220,7 +231,7 @@ fn main() {
                 let mut exp_cyborg = tok(&exp["cyborg"]);
                 // the specification's "valid" means processable: if the library itself cannot process this particular file the tool must fail
                 if exp_exit == "zero" && (exp_primary.is_none() || exp_cyborg.is_none()) { exp_exit = "one".into(); exp_primary = Some(vec![]); exp_cyborg = Some(vec![]); }
-                let primary_bytes = if c["outfile"].as_bool().unwrap() { std::fs::read(&of).unwrap_or_default() } else { out.stdout.clone() };
+                let primary_bytes = if sink == "outfile_full" { vec![] } else if c["outfile"].as_bool().unwrap() { std::fs::read(&of).unwrap_or_default() } else { out.stdout.clone() };
                 let cyborg_bytes = std::fs::read(&cy).unwrap_or_default();
                 let mut r = rep.lock().unwrap();
                 r.evaluations += 1;
